@@ -271,7 +271,8 @@ fn stop_if_huge(v: &V) {
 /// Called by the seam after it released the recorder: unwinds out of a runaway evaluation.
 #[inline]
 fn stop_if_over_budget(rec: &Rec) {
-    let over = rec.lock().map(|r| r.over_budget).unwrap_or(false);
+    // (only while an evaluation is being recorded: the harness probes the context afterwards)
+    let over = rec.lock().map(|r| r.over_budget && r.enabled).unwrap_or(false);
     if over {
         panic!("seam call budget exceeded: more than {} context calls in one evaluation", SEAM_CALL_BUDGET);
     }
